@@ -19,8 +19,8 @@ static inline bool LS_JOIN(C r, C s, C x, i128 v){
   return T_TRANS(G, a, v - b) && T_TRANS(G, a2, v - b2) && T_SUM(G, v - b, b - mn, v - mn) && T_SUM(G, v - b2, b2 - mn, v - mn) && T_NF(G, mn, v); }
 /* widening: rank and stationarity */
 static inline bool LS_WIDEN(C r, C s, C x){
-  i128 G = c_a(r), a = c_a(s), b = c_b(s), b2 = c_b(x);
-  return T_SMALL(a, iabs(b - b2)) && T_DIFF(a, 0, b2 - b, b - b2) && T_SMALL(a, G); }
+  i128 G = c_a(r), a = c_a(s), b = c_b(s), b2 = c_b(x), mn = imin(b, b2);
+  return T_SMALL(a, iabs(b - b2)) && T_DIFF(a, 0, b2 - b, b - b2) && T_SMALL(a, G) && T_NF(a, mn, b) && (RNG(fmod_(mn, a)) ? T_SMALL(a, b - fmod_(mn, a)) : 1); }
 /* aZ+b <= a2Z+b2 (a2 | a, a2 | b - b2) and v in aZ+b  ==>  v in a2Z+b2 */
 static inline bool LS_LEQ(C s, C x, i128 v){ return T_TRANS(c_a(x), c_a(s), v - c_b(s)) && T_SUM(c_a(x), v - c_b(s), c_b(s) - c_b(x), v - c_b(x)); }
 /* -(aZ+b) = aZ + (a - b) */
